@@ -106,12 +106,19 @@ func c06KeyExtraction(module string, preferKind int) {
 	vr.Reach("end")
 }
 
-func Verif_C06_KeyFunc_Generic()   { c06KeyExtraction(constants.GenericModule, gStr) }
-func Verif_C06_KeyFunc_String()    { gByteStrings = 2; c06KeyExtraction(constants.StringModule, gStr) }
-func Verif_C06_KeyFunc_Hash()      { c06KeyExtraction(constants.HashModule, gHash) }
-func Verif_C06_KeyFunc_List()      { c06KeyExtraction(constants.ListModule, gList) }
-func Verif_C06_KeyFunc_Set()       { c06KeyExtraction(constants.SetModule, gSet) }
-func Verif_C06_KeyFunc_SortedSet() { c06KeyExtraction(constants.SortedSetModule, gZSet) }
+func Verif_C06_KeyFunc_Generic() { c06KeyExtraction(constants.GenericModule, gStr) }
+func Verif_C06_KeyFunc_String()  { gByteStrings = 2; c06KeyExtraction(constants.StringModule, gStr) }
+func Verif_C06_KeyFunc_Hash()    { c06KeyExtraction(constants.HashModule, gHash) }
+func Verif_C06_KeyFunc_List()    { c06KeyExtraction(constants.ListModule, gList) }
+func Verif_C06_KeyFunc_Set()     { c06KeyExtraction(constants.SetModule, gSet) }
+func Verif_C06_KeyFunc_SortedSet_A() {
+	gCmdPart, gCmdParts = 0, 2
+	c06KeyExtraction(constants.SortedSetModule, gZSet)
+}
+func Verif_C06_KeyFunc_SortedSet_B() {
+	gCmdPart, gCmdParts = 1, 2
+	c06KeyExtraction(constants.SortedSetModule, gZSet)
+}
 
 // Verif_C06_Gate: a connection whose user is denied everything gets an error for every
 // registered command and subcommand except the handshake commands, and nothing changes.
